@@ -42,7 +42,7 @@ Lemma sync_value_go_acc : forall lhs red,
 Proof.
   induction lhs as [|[li le] rest IH]; simpl; intros red.
   - split; [apply leftover_lefts | rewrite leftover_rights; apply Permutation_refl].
-  - destruct (extract_first (fun p => node_eq (snd p) le) red) as [[[ri re] red']|] eqn:E.
+  - destruct (extract_first (fun p => val_eq (snd p) le) red) as [[[ri re] red']|] eqn:E.
     + destruct (IH red') as [H1 H2]. destruct (extract_first_perm _ _ _ _ E) as [P _].
       unfold lefts, rights in *. simpl. split; [f_equal; exact H1|].
       eapply perm_trans; [apply perm_skip; exact H2 | apply Permutation_sym; exact P].
@@ -75,11 +75,11 @@ Proof. intros. unfold sync_key. apply sync_key_go_acc. Qed.
 
 (* a matched pair of the value synchroniser holds equal elements (Python ==) *)
 Lemma sync_value_go_matched : forall lhs red li le ri re,
-  In (Some li, le, Some ri, re) (sync_value_go lhs red) -> node_eq re le = true.
+  In (Some li, le, Some ri, re) (sync_value_go lhs red) -> val_eq re le = true.
 Proof.
   induction lhs as [|[i x] rest IH]; simpl; intros red li le ri re H.
   - unfold leftover in H. apply in_map_iff in H. destruct H as [[n y] [E _]]. discriminate.
-  - destruct (extract_first (fun p => node_eq (snd p) x) red) as [[[rj ry] red']|] eqn:E.
+  - destruct (extract_first (fun p => val_eq (snd p) x) red) as [[[rj ry] red']|] eqn:E.
     + destruct H as [H|H].
       * inversion H; subst. destruct (extract_first_perm _ _ _ _ E) as [_ F]. exact F.
       * eapply IH; eauto.
